@@ -88,7 +88,7 @@ func checkC11(c *Ctx) {
 	if !c.Quick() {
 		nRand = 30000
 	}
-	pool := []string{"a", "a.txt", "a/b", "a/c", "ab", "b/c/d", "b/c.e", "a/b/c", "a/b.d", "b", "b/", "c//d", "dir/x", "dir/x/y", "dir.x", "é/ü", "z/o/z", "a/o", "a//", "a/!"}
+	pool := []string{"a", "a.txt", "a/b", "a/c", "ab", "b/c/d", "b/c.e", "a/b/c", "a/b.d", "b", "b/", "c//d", "dir/x", "dir/x/y", "dir.x", "é/ü", "z/o/z", "a/o", "a//", "a/!", "a-b/c", "a.d/e", "a!/f", "dir-x/y", "dir0/x"}
 	for i := 0; i < nRand; i++ {
 		fileSafe := i%2 == 0
 		var names []j.B
@@ -134,6 +134,9 @@ func checkC11(c *Ctx) {
 		{"a/b/c", "a/b/d", "a/e", "a/b/c2/d", "b", "x/y/z/1", "x/y/z/2", "x/y/w", "x/v"},
 		{"a/b/c/d/e", "a/b/c/d/f", "a/b/g", "a/h", "a0", "c/d"},
 		{long + "1", long + "2", long + "/x", long + "/y/z", "a", "zz"},
+		// sibling directories and files whose names differ from a directory's by a byte below / above '/'
+		{"a/1", "a/2", "a-old/1", "a.d/2", "a0/1", "a!", "a+x/y/z", "a/b/3", "a/b-c/4", "a/b.e", "a/b0"},
+		{"x/logs/1", "x/logs-old/1", "x/logs.d", "x/logs/2", "x/logs0/1", "x/log", "x-y/1", "x.z"},
 	} {
 		var names []j.B
 		for _, n := range set {
@@ -141,7 +144,7 @@ func checkC11(c *Ctx) {
 		}
 		sort.Slice(names, func(a, b int) bool { return string(names[a]) < string(names[b]) })
 		var cases []listCase
-		for _, pf := range []string{"", "a/", "a/b/", "x/", "x/y/", long, long + "/"} {
+		for _, pf := range []string{"", "a", "a/", "a/b", "a/b/", "x", "x/", "x/y/", "x/logs", long, long + "/"} {
 			if pf != "" && !strings.HasPrefix(set[0], pf[:1]) && !strings.HasPrefix(set[len(set)-3], pf[:1]) {
 				continue
 			}
